@@ -31,6 +31,8 @@ pub struct RunReport {
     pub evaluations: u64,
     /// additional distinct digests (engines that evaluate many cases per run)
     pub extra_digests: Vec<u64>,
+    /// (run index, transcript digest, human summary) for cross-profile comparison
+    pub transcript: Option<(u64, u64, String)>,
 }
 
 impl RunReport {
@@ -55,6 +57,8 @@ pub struct Aggregate {
     pub samples: Vec<Value>,
     pub violations: Vec<Violation>,
     pub digest_cap_hit: bool,
+    #[serde(default)]
+    pub transcripts: BTreeMap<u64, (u64, String)>,
 }
 
 const DIGEST_CAP: usize = 3_000_000;
@@ -85,6 +89,9 @@ impl Aggregate {
             if v > *e {
                 *e = v;
             }
+        }
+        if let Some((i, d, m)) = r.transcript {
+            self.transcripts.insert(i, (d, m));
         }
         if let Some(s) = r.sample {
             if self.samples.len() < 3 {
@@ -123,6 +130,7 @@ impl Aggregate {
             }
         }
         self.violations.extend(o.violations);
+        self.transcripts.extend(o.transcripts);
     }
 }
 
